@@ -358,10 +358,16 @@ impl Display for Number {
 
 impl Number {
     pub fn value(&self) -> i64 {
-        match self.data.as_str() {
-            "true" => 1,
-            "false" => 0,
-            _ => i64::from_str_radix(&self.data, self.radix).ok().unwrap(),
+        self.try_value().unwrap()
+    }
+
+    /// The value of the number, or `None` if it doesn't fit in 64 bits
+    pub fn try_value(&self) -> Option<i64> {
+        // The boolean literals are matched case-insensitively by the parser
+        match self.data.to_lowercase().as_str() {
+            "true" => Some(1),
+            "false" => Some(0),
+            _ => i64::from_str_radix(&self.data, self.radix).ok(),
         }
     }
 
